@@ -69,8 +69,13 @@ def eval_cases(mod, cases):
     return out
 
 
+_STOP = None   # multiprocessing.Event shared with the workers (set => skip remaining chunks)
+
+
 def _work(args):
     prop, chunk = args
+    if _STOP is not None and _STOP.is_set():
+        return 0, [], {}, [], None, 0
     mod = load_prop(prop)
     res = eval_cases(mod, chunk)
     fails, hist, nontriv = [], {}, []
@@ -82,7 +87,8 @@ def _work(args):
             hist[kk] = hist.get(kk, 0) + 1
         if mod.nontrivial(c):
             nontriv.append(digest(mod.key(c) if hasattr(mod, 'key') else c))
-    return len(chunk), fails, hist, nontriv, (chunk[0] if chunk else None)
+    # a chunk reports at most a few failure records (large records from many failing cases can stall the pool)
+    return len(chunk), fails[:5], hist, nontriv, (chunk[0] if chunk else None), len(fails)
 
 
 def chunks(it, size):
@@ -199,37 +205,39 @@ def run_check(prop, tier, seed, jobs, budget_s):
     gen = _tap(mod.gen(tier, seed, boost))
     timed_out = False
     harness_error = None
+    n_fail_total = 0
     try:
-        work = ((prop, ch) for ch in chunks(gen, getattr(mod, 'CHUNK', 2000)))
-        if jobs > 1:
-            ctx = mp.get_context('fork')
-            with ctx.Pool(jobs) as pool:
-                it = pool.imap_unordered(_work, work)
-                for n, fl, h, nt, first in it:
-                    n_eval += n
-                    fails.extend(fl)
-                    for k, v in h.items():
-                        hist[k] = hist.get(k, 0) + v
-                    nontriv.update(nt)
-                    if first is not None and len(samples) < 6:
-                        samples.append(first)
-                    if len(fails) > 200 or time.time() - t0 > budget_s:
-                        timed_out = time.time() - t0 > budget_s
-                        pool.terminate()
-                        break
-        else:
-            for w in work:
-                n, fl, h, nt, first = _work(w)
+        global _STOP
+        ctx = mp.get_context('fork')
+        _STOP = ctx.Event()
+
+        def work_iter():
+            for ch in chunks(gen, getattr(mod, 'CHUNK', 2000)):
+                if _STOP.is_set():
+                    return
+                yield (prop, ch)
+
+        def consume(results):
+            nonlocal n_eval, timed_out, n_fail_total
+            for n, fl, h, nt, first, nf in results:
                 n_eval += n
-                fails.extend(fl)
+                n_fail_total += nf
+                if len(fails) < 200:
+                    fails.extend(fl)
                 for k, v in h.items():
                     hist[k] = hist.get(k, 0) + v
                 nontriv.update(nt)
                 if first is not None and len(samples) < 6:
                     samples.append(first)
-                if len(fails) > 200 or time.time() - t0 > budget_s:
-                    timed_out = time.time() - t0 > budget_s
-                    break
+                if not _STOP.is_set() and (len(fails) >= 200 or time.time() - t0 > budget_s):
+                    timed_out = time.time() - t0 > budget_s and len(fails) < 200
+                    _STOP.set()     # workers skip what is left; keep draining, never terminate mid-write
+
+        if jobs > 1:
+            with ctx.Pool(jobs) as pool:
+                consume(pool.imap_unordered(_work, work_iter()))
+        else:
+            consume(_work(w) for w in work_iter())
     except Exception as e:
         harness_error = traceback.format_exc()
 
@@ -303,7 +311,7 @@ def run_check(prop, tier, seed, jobs, budget_s):
             histogram=dict(sorted(hist.items())),
             known_findings_reproduced=[l for l in out_lines], known_finding_hits=known_hits,
             stale_findings=stale, drifted_anchors=drifted, boosted=boost,
-            failures_seen=len(fails), timed_out=timed_out, harness_error=harness_error,
+            failures_seen=n_fail_total, timed_out=timed_out, harness_error=harness_error,
             explanation=getattr(mod, 'EXPLANATION', ''),
             anchored_function_coverage=anchored_cov,
         ),
